@@ -738,6 +738,14 @@ func (r *Replica) Restore(ctx context.Context, opt RestoreOptions) (err error) {
 	pr, pw := io.Pipe()
 
 	go func() {
+		// The ltx decoder can panic on truncated input (slice bounds out of
+		// range while reading the trailer). Report it as an error instead of
+		// crashing the whole process from this goroutine.
+		defer func() {
+			if v := recover(); v != nil {
+				_ = pw.CloseWithError(fmt.Errorf("ltx compactor: invalid ltx file: %v", v))
+			}
+		}()
 		c, err := ltx.NewCompactor(pw, rdrs)
 		if err != nil {
 			pw.CloseWithError(fmt.Errorf("new ltx compactor: %w", err))
